@@ -204,6 +204,14 @@ class LaxBoundedSemaphore(_Semaphore):
 #
 
 
+def _rebuild_encoding_error(cls, exc, value):
+    self = cls.__new__(cls)
+    self.exc = exc
+    self.value = value
+    Exception.__init__(self, exc, value)
+    return self
+
+
 class MaybeEncodingError(Exception):
     """Wraps possible unpickleable errors, so they can be
     safely sent through the socket."""
@@ -212,6 +220,12 @@ class MaybeEncodingError(Exception):
         self.exc = repr(exc)
         self.value = repr(value)
         super().__init__(self.exc, self.value)
+
+    def __reduce__(self):
+        # exc and value are text already: going through __init__ again
+        # would repr() them once more on every pickle round trip.
+        return _rebuild_encoding_error, (
+            self.__class__, self.exc, self.value)
 
     def __repr__(self):
         return "<%s: %s>" % (self.__class__.__name__, str(self))
